@@ -178,7 +178,7 @@ def check_set(names, rng, res: CaseResult, perm_limit=24, where='fn'):
 
 # ---- through real chains ------------------------------------------------------------------------------------------
 
-def build_chain(names, tmp, with_consumer=True, short_inputs=None, self_inputs=None, arg_consumers=None):
+def build_chain(names, tmp, with_consumer=True, short_inputs=None, self_inputs=None, arg_consumers=None, rebuild=False):
     """Real chain whose task full names are exactly `names` (+ a consumer that has all of them as inputs)."""
     from taskchain import Config, Task
     from taskchain.data import JSONData  # noqa
@@ -231,7 +231,14 @@ def build_chain(names, tmp, with_consumer=True, short_inputs=None, self_inputs=N
         ns_ = {}
         exec(f'def run(self, {", ".join(args)}) -> list:\n    return [{", ".join(args)}]\n', ns_)
         root.data['tasks'] = list(root.data['tasks']) + [type(f'ArgConsumer{i}', (Task,), {'Meta': ameta, 'run': ns_['run'], '__module__': __name__})]
-    return root.chain()
+    chain = root.chain()
+    if rebuild:
+        # the same config objects used for a second chain (and the first one thrown away): the names are the same names
+        chain._first_build_names = sorted(chain.tasks)
+        chain2 = root.chain()
+        chain2._first_build_names = chain._first_build_names
+        return chain2
+    return chain
 
 
 def check_self_named_input(names, rng, res: CaseResult, tmp):
@@ -364,7 +371,14 @@ def check_chain(names, rng, res: CaseResult):
                         res.violate(f'dependant in namespace `{"::".join(ns)}` of chain {sorted(names)}: input `{q}` was bound to {bound}, expected {short_expect[(ns, q)]}',
                                     witness={'names': names, 'ns': list(ns), 'input': q})
         try:
-            chain = chain_s if short_ok else build_chain(names, tmp)
+            rebuild = not short_ok and rng.random() < 0.5
+            chain = chain_s if short_ok else build_chain(names, tmp, rebuild=rebuild)
+            if rebuild:
+                res.count('chains_built_twice_from_the_same_config_objects')
+                if sorted(chain.tasks) != chain._first_build_names:
+                    res.violate(f'two chains built one after the other from the same config objects (nested namespaces given as Config objects in `uses`) expose '
+                                f'different task names: first {chain._first_build_names}, second {sorted(chain.tasks)}', witness={'names': names, 'via': 'rebuild'})
+                    return
             if short_ok:
                 # drop the short dependants from the universe of names (they are extra tasks of the same chain: queries below run AFTER their inputs
                 # were resolved, on the same chain object)
